@@ -1,23 +1,128 @@
 """Per-property manifest texts.  PROPS: claimed; NOT_APPLICABLE: everything else, with reason."""
 
-_T = "bounded symbolic execution of the real functions (CrossHair/z3), every path condition decided by the solver; counterexamples replayed on the unmodified code"
-_NOTE = "Bounded: string lengths, row counts, nesting depth and alphabets as stated per obligation in the evidence file. Trusted base: CPython, crosshair-tool 0.0.110's model of str/list/dict/re, z3; harness shims S1-S4 (identity hash, un-cached pure functions, list-backed xpath map, type-based hashable) validated by re-running every witness without them."
+_T = "bounded symbolic execution of the real pyxform functions with CrossHair (z3 decides every path condition over all values of the symbolic inputs); reachability twin per obligation; counterexamples and witnesses replayed on the unmodified code"
+_NOTE = (
+    "Bounded: string lengths (1-3 symbolic characters per cell, contiguous code point ranges), row counts (3-4 rows), nesting depth (<= 3), "
+    "languages (<= 3) as stated per obligation in the evidence file. Trusted base: CPython, crosshair-tool 0.0.110's model of str/list/dict/re, z3; "
+    "harness shims S1-S4 (identity hash of elements, un-cached pure functions, list-backed xpath map, type-based hashable), S5 (pure-Python XML parser model in place of expat, "
+    "differentially validated), environment stubs named per obligation; every witness and counterexample is re-executed without the symbolic-only shims."
+)
+
+
+def _p(technique_extra, text, ref, note_extra=""):
+    return (_T + technique_extra, text, _NOTE + note_extra, ref)
+
 
 PROPS = {
-    "C01": (
-        _T + "; regex-language inclusion in z3 for the name guard",
-        "Serializer lemma (text/attribute escaping, compact and pretty) decided for every XML Char string up to the length bound; skeleton and name-guard obligations on the real generators.",
-        _NOTE,
-        "DESIGN.md §3 C01",
+    "C01": _p(
+        "; regex-language inclusion in z3 (regex taken from re._parser of the imported pattern) for the name guard",
+        "Serializer lemma (text/attribute escaping, compact and pretty, 10 tree shapes, per-character homomorphism) decided for XML Char strings up to the length bound; XForm skeleton, namespace declarations and name validity decided on whole forms with symbolic titles/names; the NCName guard decided for all strings by language inclusion.",
+        "DESIGN.md §3 C01, §8",
+        " Known findings F2, F8, F17 are reported as KNOWN-FINDING by dedicated obligations; companions assume the defective inputs away.",
     ),
-    "C11": (
-        _T,
-        "Each documented setting is a symbolic tracer string driven through the real workbook_to_json -> builder -> Survey.xml(); the solver shows it lands at its documented place and nowhere else, for every value within the bound and every presence pattern.",
-        _NOTE,
-        "DESIGN.md §3 C11",
+    "C02": _p(
+        "",
+        "Closure of every nodeset/ref/repeat/action reference over all row sequences of the bounded vocabulary (incl. generated _count/_other/meta nodes, triggers, dynamic defaults), element names symbolic on fixed layouts, case-insensitive sibling ambiguity with unrelated siblings in between, re-parenting histories.",
+        "DESIGN.md §3 C02, §8",
+    ),
+    "C03": _p(
+        "; one obligation per layout skeleton (concrete instantiation), all element names symbolic",
+        "For every layout skeleton up to the bound the solver quantifies over all element names: the substituted path is the target's absolute path or a relative path that an independent resolver maps to the target, relative when the target's innermost repeat encloses the referrer; every consumer cell kind decided on all group/repeat kind assignments; unknown/ambiguous names rejected.",
+        "DESIGN.md §3 C03, §8",
+    ),
+    "C04": _p(
+        "",
+        "All row-kind sequences of length 3 (quick) / 4 (thorough) over the vocabulary against an independent begin/end parser: instance and body shape, template copies, noise rows, nesting chains to depth 3, appearance routing.",
+        "DESIGN.md §3 C04, §8",
+    ),
+    "C05": _p(
+        "",
+        "Every documented logic column spelling is a tracer routed through the real header processing, builder and bind generation: attribute placement per row, all 64 presence subsets, yes/no normalisation for values of length 2-5, audit parameter binds.",
+        "DESIGN.md §3 C05, §8",
+    ),
+    "C06": _p(
+        "; pure-Python XML parser model reads the serialised node back",
+        "For 14 text channels the cell text (2-3 symbolic code points incl. XML metacharacters and astral planes) is recovered exactly from the serialised node and never changes the element/attribute structure; text around a ${reference} becomes exactly text/output/text.",
+        "DESIGN.md §3 C06, §8",
+        " Labels containing 'instance(' and default-text classification go through the C lexer and are outside the claim.",
+    ),
+    "C07": _p(
+        "",
+        "All presence patterns of label/hint/guidance/messages/media cells over up to 3 languages, both column orders and three default_language settings: every itext reference (body, bind messages, choice itextId) resolves in every translation, id sets equal, default marking exact; calculate rows, messages with references, choice lists shared/filtered/search().",
+        "DESIGN.md §3 C07, §8",
+        " Known finding F11 (unlabelled choice in an itext list) is reported as KNOWN-FINDING; its companion assumes every choice labelled.",
+    ),
+    "C08": _p(
+        "",
+        "The whole itext block and body of the pattern forms is compared with an independent expected model written from the property statement (cell text per (kind, language), '-' padding, no invented language); header language tokens symbolic at the process_header unit.",
+        "DESIGN.md §3 C08, §8",
+    ),
+    "C09": _p(
+        "",
+        "Choice-list fidelity with interleaved rows and sparse extra columns (tracers), itemset wiring with independent filters/randomize/seed, or_other, external sources (symbolic file stem) declared once with the conventional URI or rejected on id clash.",
+        "DESIGN.md §3 C09, §8",
+    ),
+    "C10": _p(
+        "; the lexer-based static/dynamic classifier is replaced by a model exact on the harness alphabet",
+        "Static vs dynamic defaults over 7 section chains and 3 question types: exactly-once placement, events and template copies; triggered calculations for calculate/text/background-geopoint targets with symbolic calculation text (incl. truth literals).",
+        "DESIGN.md §3 C10, §8",
+    ),
+    "C11": _p(
+        "",
+        "Each documented setting is a symbolic tracer driven through the real workbook_to_json -> builder -> Survey.xml(): it lands at its documented place and nowhere else for every value within the bound and every presence pattern; defaults, omit_instanceID spellings, namespaces with/without entities.",
+        "DESIGN.md §3 C11, §8",
+    ),
+    "C12": _p(
+        "",
+        "Decided at the pure-Python units: typed-cell canonicalisation, empty-run limits (rows 60 / columns 20, windows in quick, full sweep in thorough), trimming, the Markdown reader, CSV row assembly, delivery channel and file-stem fallback (in-memory file table).",
+        "DESIGN.md §3 C12, §4, §8",
+        " Binary container parsing (xlrd/openpyxl/zip/expat), csv.reader tokenisation and non-integral float rendering are C code: outside the claim, equality of whole conversions across binary containers is NOT decided.",
+    ),
+    "C13": _p(
+        "",
+        "Documented header aliases with symbolic case/spacing/language token at process_header; type spelling families, layout noise (column permutations, blank rows, unknown columns, extra sheets) and cell noise on representative forms with symbolic tracers: identical XForm tree and warnings (row numbers shifted by the rows inserted above).",
+        "DESIGN.md §3 C13, §4, §8",
+        " Whole-form equivalence under arbitrary compositions of transformations is not decided.",
+    ),
+    "C14": _p(
+        "; solver-chosen set iteration orders (hash-seed model); two-thread interleaving model of the shared lexer encoded directly in z3 from the sources of re.Scanner.scan and the tokenizer",
+        "Hash-seed independence with every small set iterated by pyxform code permuted by the solver; regeneration and conversion histories with the caches on; bounded schedules of two threads in the shared lexer.",
+        "DESIGN.md §3 C14, §4, §8",
+        " Thread schedules only for the one shared mutable object found (the lexer), statement-level atomicity, 2 threads.",
+    ),
+    "C15": _p(
+        "; pure-Python XML parser model reads both serialisations back",
+        "Compact and pretty serialisations of 9 tree shapes with symbolic text/attribute segments (printable ASCII, TAB/LF, U+2028/9) parse to the same document up to white-space-only text in element-only content.",
+        "DESIGN.md §3 C15, §8",
+    ),
+    "C16": _p(
+        "; JSON text round trip modelled as a structural copy that rejects non-JSON types",
+        "Workbook JSON and survey JSON dumps reload to the same XForm tree and a stable dump for forms with group logic, extra choice columns, translations, parameters, repeats and settings (symbolic tracers, symbolic feature flags).",
+        "DESIGN.md §3 C16, §8",
+        " Known finding F18 (search() select dumped after xml()) is reported as KNOWN-FINDING.",
+    ),
+    "C17": _p(
+        "",
+        "24 catalogued breaking mutations at symbolic sites with symbolic blank-row offsets and offending text: PyXFormError naming the subject and the right row; totality (only PyXFormError) over all 16^3 row sequences of the extended vocabulary and over symbolic strings into parameter/package-name validators.",
+        "DESIGN.md §3 C17, §8",
+    ),
+    "C18": _p(
+        "; the file system and the validator process are replaced by an in-memory model with symbolic outcomes",
+        "Every combination of validator outcome (return code -3..3, timeout, stderr text, java present, write failure, validate/pretty flags): right exception/warnings and an empty file table afterwards; error cleaner templates with symbolic path segments; CLI flag logic and output writing.",
+        "DESIGN.md §3 C18, §4, §8",
+        " The real subprocess, watchdog, signals, Java and the jar are outside the claim.",
+    ),
+    "C19": _p(
+        "",
+        "All 16 presence combinations of entity_id/create_if/update_if/label with symbolic expressions (with and without custom namespaces) against an independent decision table; save_to placement over 7 row placements with symbolic property names; dataset names; sheet shape.",
+        "DESIGN.md §3 C19, §8",
+    ),
+    "C20": _p(
+        "; If-merging symbolic evaluation of levenshtein_distance with havocked loop-carried state (inductive row step) against an independently encoded recurrence",
+        "Missing-translation and or_other warnings over all subsets of 8 survey x 3 choices translatable columns; Levenshtein equivalence for all candidate strings by induction on rows; misspelling messages, row-level triggers with symbolic positions and blank-row offsets, IANA tag check.",
+        "DESIGN.md §3 C20, §8",
     ),
 }
 
 _ALL = [f"C{i:02d}" for i in range(1, 21)]
-_PENDING = "no obligation registered yet in this build round; nothing is claimed (planned engine: see DESIGN.md §3)"
-NOT_APPLICABLE = {p: _PENDING for p in _ALL if p not in PROPS}
+NOT_APPLICABLE = {p: "no obligation registered" for p in _ALL if p not in PROPS}
